@@ -257,7 +257,7 @@ func TestVerifC07Random(t *testing.T) {
 
 func TestVerifC08Random(t *testing.T) {
 	vs.Run(t, "C08", func(c *vs.Case) error {
-		return vw.PropC08(c, compositeFactory, vw.RolloutOpts{MaxChildren: 6, Scale: true})
+		return vw.PropC08(c, compositeFactory, vw.RolloutOpts{MaxChildren: 6, Scale: true, TwoKinds: true})
 	})
 }
 
